@@ -277,9 +277,22 @@ func (t *transport) Execute(ctx context.Context, req *federation.QueryRequest) (
 		t.c.Probe("service-request")
 		simrt.Logf("gateway -> %s: %s", t.name, printSelectionSet(req.Query.SelectionSet))
 	}
-	if d := t.c.Biased(4, 500, "service-delay"); d > 0 {
+	r, _ := ctx.Value(fedReqKey{}).(*fedRequest)
+	switch d := t.c.Biased(5, 500, "service-delay"); {
+	case d == 4 && t.faulty && !isIntrospection:
+		// a slow service; like a real network client the transport gives up as
+		// soon as the request's context is cancelled
+		t.c.Fault("service-slow")
+		tm := time.NewTimer(20 * time.Second)
+		select {
+		case <-tm.C:
+		case <-ctx.Done():
+			tm.Stop()
+			return nil, ctx.Err()
+		}
+	case d > 0:
 		simrt.Sleep(time.Duration(d) * 2 * time.Millisecond)
-	} else {
+	default:
 		simrt.Yield()
 	}
 	if t.faulty && t.c.Biased(2, 930, "service-error") > 0 {
@@ -288,6 +301,9 @@ func (t *transport) Execute(ctx context.Context, req *federation.QueryRequest) (
 		} else {
 			t.c.Fault("service-error")
 			t.fw.serviceErrors++
+			if r != nil && r.firstErrorAt == 0 {
+				r.firstErrorAt = simrt.Now() + 1
+			}
 		}
 		return nil, errors.New("SECRET-service-unavailable-" + t.name)
 	}
@@ -301,8 +317,13 @@ func (t *transport) Execute(ctx context.Context, req *federation.QueryRequest) (
 	return &federation.QueryResponse{Result: resp.Result}, nil
 }
 
+type fedReqKey struct{}
+
 type fedRequest struct {
-	idx       int
+	firstErrorAt time.Duration // simulated time (+1ns) at which a service error was first returned for this request
+	cancelledAt  time.Duration
+	doneAt       time.Duration
+	idx          int
 	text      string
 	root      *qset
 	cancelAt  time.Duration // <0 never
@@ -399,18 +420,20 @@ func fedBody(c *runner.Ctx) {
 				r.rejected = err
 				return
 			}
-			rctx, cancel := context.WithCancel(ctx)
+			rctx, cancel := context.WithCancel(context.WithValue(ctx, fedReqKey{}, r))
 			defer cancel()
 			if r.cancelAt >= 0 {
 				go func() {
 					simrt.Sleep(r.cancelAt)
 					c.Fault("ctx-cancel")
 					r.cancelled = true
+					r.cancelledAt = simrt.Now() + 1
 					cancel()
 				}()
 			}
 			r.val, _, r.err = gateway.Execute(rctx, q, nil)
 			r.done = true
+			r.doneAt = simrt.Now()
 			simrt.Logf("request %d done err=%v", r.idx, r.err)
 		}()
 	}
@@ -440,6 +463,15 @@ func fedBody(c *runner.Ctx) {
 		want := ev.object("Query", 0, r.root, nil)
 		delete(want.(map[string]interface{}), "__key")
 		wantN, _ := normalize(want)
+		// promptness: once a sub-query failed or the request was cancelled, the
+		// remaining sub-queries are cancelled and Execute returns (the stub
+		// transports honour cancellation at once; resolvers take milliseconds)
+		if r.err != nil && r.firstErrorAt > 0 && r.doneAt-r.firstErrorAt > 2*time.Second {
+			c.ViolateFor("C15", "gateway-waited-for-sibling-after-failure", "a sub-query of request %d failed at t=%v but Execute only returned at t=%v: the sibling sub-queries were not cancelled", r.idx, r.firstErrorAt, r.doneAt)
+		}
+		if r.cancelledAt > 0 && r.doneAt > r.cancelledAt && r.doneAt-r.cancelledAt > 2*time.Second {
+			c.ViolateFor("C15", "gateway-slow-to-return-after-cancellation", "request %d was cancelled at t=%v but Execute only returned at t=%v", r.idx, r.cancelledAt, r.doneAt)
+		}
 		if r.err != nil {
 			if !fw.faulty {
 				c.ViolateFor("C06", "gateway-error-without-fault", "the gateway failed a valid query although no fault was injected: %v\nquery: %s", firstLine(r.err), r.text)
